@@ -28,6 +28,8 @@ pub type Body = Box<dyn FnOnce() -> BoxFut>;
 pub enum TaskKind {
     Export,
     BlockOn,
+    /// export run by the harness-written v1-ABI executor (`v1exec`)
+    V1Export,
 }
 
 pub struct TaskDef {
@@ -124,15 +126,20 @@ fn probe_ptr(p: *mut c_void) -> bool {
 }
 
 fn record_snapshot(task: u32, at: &'static str, set: Option<u32>, keys: Vec<(u32, *mut c_void)>) {
-    let probed: Vec<bool> = keys.iter().map(|(_, p)| probe_ptr(*p)).collect();
+    // probe the callback_ptr of every registration that *looks* right to the
+    // host (live handle, in this task's set, operation in progress): if the
+    // operation state it points to has been freed, Miri / valgrind report it
+    // here even if no event ever arrives.  (Registrations that are already
+    // inconsistent are reported by M2 from the snapshot itself.)
+    let states: Vec<KeyState> = host::with(|h| keys.iter().map(|(k, _)| h.key_state(*k)).collect());
+    let probed: Vec<bool> = keys.iter().zip(states.iter()).map(|((_, p), ks)| ks.exists && ks.in_set == set && ks.in_progress && probe_ptr(*p)).collect();
     host::with(|h| {
         let members = set.map(|s| h.set_members(s)).unwrap_or_default();
         let internal: Vec<u32> = members.iter().copied().filter(|m| h.is_unit_reader(*m)).collect();
-        let keys: Vec<KeyState> = keys
-            .iter()
+        let keys: Vec<KeyState> = states
+            .into_iter()
             .zip(probed)
-            .map(|((k, _), pr)| {
-                let mut ks = h.key_state(*k);
+            .map(|(mut ks, pr)| {
                 ks.probed = pr;
                 ks
             })
@@ -144,6 +151,10 @@ fn record_snapshot(task: u32, at: &'static str, set: Option<u32>, keys: Vec<(u32
 /// M2 snapshot of an export task between callbacks (state is in the context slot).
 pub fn snapshot_task(t: u32, at: &'static str) {
     let _g = crate::alloc::host_mode();
+    if let Some((set, keys)) = crate::v1exec::registrations(t) {
+        record_snapshot(t, at, set, keys);
+        return;
+    }
     let ctx = host::with(|h| h.tasks[t as usize].ctx);
     if ctx == 0 {
         return;
@@ -206,7 +217,7 @@ fn note_code(t: u32, code: u32) {
     }
     // registrations of the *other* suspended tasks must stay consistent too
     // (an operation may have moved away from them during this callback)
-    let others: Vec<u32> = host::with(|h| h.tasks[1..].iter().filter(|o| o.id != t && o.ctx != 0 && matches!(o.st, TaskSt::Yielded | TaskSt::Waiting(_))).map(|o| o.id).collect());
+    let others: Vec<u32> = host::with(|h| h.tasks[1..].iter().filter(|o| o.id != t && matches!(o.st, TaskSt::Yielded | TaskSt::Waiting(_))).map(|o| o.id).collect());
     for o in others {
         snapshot_task(o, "other-task-returned");
     }
@@ -294,6 +305,25 @@ pub fn run(defs: Vec<TaskDef>, cfg: &ExecCfg) -> RunEnd {
                             Err(p) => end.panic = Some(p),
                         }
                     }
+                    TaskKind::V1Export => {
+                        host::with(|h| h.tasks[t as usize].is_v1 = true);
+                        let r = run_guest(t, move || {
+                            let fut = body();
+                            crate::v1exec::start(
+                                t,
+                                Box::pin(async move {
+                                    let guard = rt::TaskCancelOnDrop::new();
+                                    fut.await;
+                                    host::with(|h| h.task_return(0));
+                                    guard.forget();
+                                }),
+                            )
+                        });
+                        match r {
+                            Ok(code) => note_code(t, code),
+                            Err(p) => end.panic = Some(p),
+                        }
+                    }
                     TaskKind::BlockOn => {
                         let r = run_guest(t, move || {
                             let fut = body();
@@ -314,7 +344,7 @@ pub fn run(defs: Vec<TaskDef>, cfg: &ExecCfg) -> RunEnd {
                     h.tasks[t as usize].st = TaskSt::Running;
                     h.log.push(Ev::Deliver { task: t, via: "callback", code: EVENT_NONE, handle: 0, payload: 0 });
                 });
-                match run_guest(t, || unsafe { rt::callback(EVENT_NONE, 0, 0) }) {
+                match run_guest(t, || call_callback(t, EVENT_NONE, 0, 0)) {
                     Ok(code) => note_code(t, code),
                     Err(p) => end.panic = Some(p),
                 }
@@ -328,7 +358,7 @@ pub fn run(defs: Vec<TaskDef>, cfg: &ExecCfg) -> RunEnd {
                     ev
                 });
                 let Some((e0, e1, e2)) = ev else { continue };
-                match run_guest(t, || unsafe { rt::callback(e0, e1, e2) }) {
+                match run_guest(t, || call_callback(t, e0, e1, e2)) {
                     Ok(code) => note_code(t, code),
                     Err(p) => end.panic = Some(p),
                 }
@@ -363,13 +393,21 @@ pub fn run(defs: Vec<TaskDef>, cfg: &ExecCfg) -> RunEnd {
     end
 }
 
+fn call_callback(t: u32, e0: u32, e1: u32, e2: u32) -> u32 {
+    if host::with(|h| h.tasks[t as usize].is_v1) {
+        crate::v1exec::callback(t, e0, e1, e2)
+    } else {
+        unsafe { rt::callback(e0, e1, e2) }
+    }
+}
+
 fn deliver_cancel(t: u32, end: &mut RunEnd) {
     host::with(|h| {
         h.tasks[t as usize].cancel_delivered = true;
         h.tasks[t as usize].st = TaskSt::Running;
         h.log.push(Ev::Deliver { task: t, via: "callback", code: EVENT_CANCEL, handle: 0, payload: 0 });
     });
-    match run_guest(t, || unsafe { rt::callback(EVENT_CANCEL, 0, 0) }) {
+    match run_guest(t, || call_callback(t, EVENT_CANCEL, 0, 0)) {
         Ok(code) => note_code(t, code),
         Err(p) => end.panic = Some(p),
     }
